@@ -231,9 +231,169 @@ def check_rewind(rep, ix):
     rep.ob('R-C20-REWIND', f'{BF}:binary_file_type_from_path', 'the path variant opens the file in binary mode and closes it (with)', "withopen(path,'rb')asfile_object:" in src.replace(p.args.args[0].arg, 'path') and 'returnbinary_file_type(file_object)' in src, node=p, module=m)
 
 
+def _frame_size_positive(rep, ix):
+    """FrameSetPlan divides by its frame size = sum of the channel sizes of the DFSR.  It is positive because (1) the plan is
+    built only by LogPass.__init__, after it has refused a DFSR without channels, (2) a DFSR read from a file keeps only
+    channels whose size is not 0, and (3) a negative size is refused when the channel block is read."""
+    LP, LR, TP = 'TotalDepth.LIS.core.LogPass', 'TotalDepth.LIS.core.LogiRec', 'TotalDepth.LIS.core.Type01Plan'
+    facts = []
+    # (0) what the divisor is
+    init = ix.get_func(TP, 'FrameSetPlan.__init__')
+    asg = {_n(a.targets[0]): _n(a.value) for a in walk_no_nested(init) if isinstance(a, ast.Assign) and len(a.targets) == 1}
+    dp = init.args.args[1].arg
+    facts.append(('the frame size is the sum of the sizes of the channel blocks', asg.get('self._frameSize') == 'sum(self._channelSizes)'
+                  and asg.get('self._channelSizes') == f'[b.sizeforbin{dp}.dsbBlocks]', init, TP))
+    stores = [n for fn in ix.get_class(TP, 'FrameSetPlan').body if isinstance(fn, ast.FunctionDef) for n in walk_no_nested(fn)
+              if isinstance(n, ast.Attribute) and isinstance(n.ctx, ast.Store) and n.attr in ('_frameSize', '_channelSizes')]
+    facts.append(('and is assigned only in the constructor', len(stores) == 2, init, TP))
+    # (1) constructed only behind the no-channels guard
+    sites = []
+    for mn in ix.module_names():
+        if not mn.startswith('TotalDepth.') or '.test' in mn:
+            continue
+        for c in ast.walk(ix.module(mn).tree):
+            if isinstance(c, ast.Call) and (_n(c.func) == 'FrameSetPlan' or _n(c.func).endswith('.FrameSetPlan')):
+                sites.append((mn, c))
+    ok = len(sites) == 1 and sites[0][0] == LP
+    if ok:
+        c = sites[0][1]
+        f = c
+        while not isinstance(f, ast.FunctionDef):
+            f = f._parent
+        arg = _n(c.args[0]) if c.args else ''
+        src = {_n(a.targets[0]): _n(a.value) for a in walk_no_nested(f) if isinstance(a, ast.Assign) and len(a.targets) == 1}.get(arg, arg)
+        g = cfgmod.CFG(f)
+        dom = g.dominators()
+        st = common.stmt_containing(c)
+        guards = [n for t, neg, n in common.reject_guards(f) if not neg and show(nf(t)) == common.nfs(f'len({src}.dsbBlocks) == 0')]
+        gst = [common.stmt_containing(n) if not isinstance(n, ast.stmt) else n for n in guards]
+        ok = bool(gst) and any(x in dom.get(st, ()) for x in gst)
+    facts.append(('the plan is built at one place, after a DFSR without channels has been refused', ok, sites[0][1] if sites else None, LP))
+    # (2) only channels of non-zero size are kept
+    apps = []
+    for mn in ix.module_names():
+        if not mn.startswith('TotalDepth.') or '.test' in mn:
+            continue
+        for c in ast.walk(ix.module(mn).tree):
+            if isinstance(c, ast.Call) and _n(c.func).endswith('dsbBlocks.append'):
+                apps.append((mn, c))
+    ok = bool(apps)
+    for mn, c in apps:
+        v = _n(c.args[0])
+        p, child, guarded = c._parent, c, False
+        while p is not None and not isinstance(p, ast.FunctionDef):
+            if isinstance(p, ast.If) and show(nf(p.test)) == common.nfs(f'not {v}.isNull') and any(child is x or any(child is y for y in ast.walk(x)) for x in p.body):
+                guarded = True
+            child, p = p, getattr(p, '_parent', None)
+        ok = ok and guarded
+    isnull = ix.get_func(LR, 'DatumSpecBlock.isNull')
+    r = common.returns_of(isnull)
+    ok = ok and len(r) == 1 and show(nf(r[0].value)) == common.nfs('self.size == 0')
+    facts.append(('a channel block is kept only when its size is not 0 (isNull = size == 0)', ok, apps[0][1] if apps else None, LR))
+    # (3) negative sizes are refused when a block is read
+    sb = ix.get_func(LR, 'DatumSpecBlock._setBurstsSubChannels')
+    neg = [n for t, ng, n in common.reject_guards(sb) if not ng and show(nf(t)) == common.nfs('self.size < 0')]
+    g = cfgmod.CFG(sb)
+    first_ok = bool(neg) and all((common.stmt_containing(n) if not isinstance(n, ast.stmt) else n) in g.dominators().get(s_, ()) or s_ is (common.stmt_containing(n) if not isinstance(n, ast.stmt) else n)
+                                 for n in neg[:1] for s_ in g.stmts() if isinstance(s_, (ast.Assign, ast.AugAssign)))
+    rd = ix.get_func(LR, 'DatumSpecBlockRead.__init__')
+    called = [s_ for s_ in rd.body if isinstance(s_, ast.Expr) and _n(s_.value) == 'self._setBurstsSubChannels()']
+    facts.append(('a channel block read from a file with a negative size is refused', bool(neg) and first_ok and len(called) == 1, sb, LR))
+    allok = True
+    for what, ok, node, mn in facts:
+        allok = allok and bool(ok)
+        rep.ob('R-C20-FRAMESIZE', f'{TP}:FrameSetPlan', what, bool(ok), required='frame size > 0, so FrameSetPlan.numFrames never divides by zero', node=node, module=ix.module(mn))
+    return allok
+
+
+def _bool_eval(e, atoms):
+    """truth value of a guard over the atoms {'size0': X.size == 0, 'none': X.value is None}; ValueError if it reads anything else"""
+    if isinstance(e, ast.BoolOp):
+        vals = [_bool_eval(v, atoms) for v in e.values]
+        return all(vals) if isinstance(e.op, ast.And) else any(vals)
+    if isinstance(e, ast.UnaryOp) and isinstance(e.op, ast.Not):
+        return not _bool_eval(e.operand, atoms)
+    if isinstance(e, ast.Compare) and len(e.ops) == 1:
+        l, o, r = e.left, e.ops[0], e.comparators[0]
+        ls, rs = _n(l), _n(r)
+        if ls.endswith('.size') and rs == '0' or rs.endswith('.size') and ls == '0':
+            if isinstance(o, ast.Eq):
+                return atoms['size0']
+            if isinstance(o, (ast.NotEq, ast.Gt, ast.Lt)) and (isinstance(o, ast.NotEq) or (isinstance(o, ast.Gt) and rs == '0') or (isinstance(o, ast.Lt) and ls == '0')):
+                return not atoms['size0']        # sizes are unsigned bytes
+        if ls.endswith('.value') and rs == 'None':
+            if isinstance(o, ast.Is):
+                return atoms['none']
+            if isinstance(o, ast.IsNot):
+                return not atoms['none']
+        if isinstance(o, (ast.Eq, ast.NotEq)) and isinstance(l, (ast.Compare, ast.BoolOp, ast.UnaryOp)) and isinstance(r, (ast.Compare, ast.BoolOp, ast.UnaryOp)):
+            a, b = _bool_eval(l, atoms), _bool_eval(r, atoms)
+            return (a == b) if isinstance(o, ast.Eq) else (a != b)
+    if isinstance(e, ast.Attribute) and e.attr == 'size':
+        return not atoms['size0']
+    raise ValueError(_n(e))
+
+
+def check_invariant(rep, ix):
+    """EntryBlockSet asserts _checkIntegrity() == 0 after every change.  A block decoded from arbitrary bytes is stored by
+    setEntryBlock: each clause of the integrity check that reads a field of a block must be excluded by a guard that raises a LIS
+    exception before the block is stored, else the assert fails with AssertionError (which the LIS detector does not catch)."""
+    LR = 'TotalDepth.LIS.core.LogiRec'
+    m = ix.module(LR)
+    ci = ix.get_func(LR, 'EntryBlockSet._checkIntegrity')
+    se = ix.get_func(LR, 'EntryBlockSet.setEntryBlock')
+    site = f'{LR}:EntryBlockSet.setEntryBlock'
+    p = se.args.args[1].arg
+    loops = [n for n in walk_no_nested(ci) if isinstance(n, ast.For)]
+    clauses = []
+    for lp in loops:
+        ev = lp.target.elts[-1].id if isinstance(lp.target, ast.Tuple) else lp.target.id
+        for n in lp.body:
+            if isinstance(n, ast.If) and n.body and isinstance(n.body[0], ast.Return) and _n(n.body[0].value) != '0':
+                clauses.append((n, ev, _n(n.body[0].value)))
+    g = cfgmod.CFG(se)
+    dom = g.dominators()
+    stores = [s_ for s_ in g.stmts() if isinstance(s_, ast.Assign) and _n(s_.targets[0]) == f'self._ebS[{p}.type]' and _n(s_.value) == p]
+    rep.ob('R-C20-INVARIANT', site, 'the block is stored in the slot of its own type (integrity clause: type = index)', len(stores) == 1, found=str(len(stores)), node=se, module=m)
+    guards = []
+    for t, neg, n in common.reject_guards(se):
+        st = n if isinstance(n, ast.stmt) else common.stmt_containing(n)
+        if not neg and stores and st in dom.get(stores[0], ()):
+            guards.append(t)
+    n_field = 0
+    for cl, ev, code in clauses:
+        names = {x.attr for x in ast.walk(cl.test) if isinstance(x, ast.Attribute) and isinstance(x.value, ast.Name) and x.value.id == ev}
+        if not names or names <= {'type'}:
+            continue
+        n_field += 1
+        uncovered = []
+        try:
+            for size0 in (True, False):
+                for none in (True, False):
+                    atoms = {'size0': size0, 'none': none}
+                    if _bool_eval(cl.test, atoms):
+                        hit = False
+                        for gd in guards:
+                            try:
+                                hit = hit or _bool_eval(gd, atoms)
+                            except ValueError:
+                                pass
+                        if not hit:
+                            uncovered.append(f'size {"= 0" if size0 else "> 0"}, value {"None" if none else "present"}')
+            ok = not uncovered
+            found = 'stored without a test when ' + '; '.join(uncovered) if uncovered else 'excluded by a guard before the store'
+        except ValueError as err:
+            ok, found = False, f'clause not understood: {err}'
+        rep.ob('R-C20-INVARIANT', site, f'integrity clause {code} (`{_n(cl.test)}`) cannot be violated by a block read from a file', ok, found=found,
+               required='a guard raising a LIS exception before the block is stored', node=cl, module=m)
+    rep.ob('R-C20-INVARIANT', f'{LR}:EntryBlockSet._checkIntegrity', 'integrity clauses over block fields found', n_field >= 2, found=str(n_field), node=ci, module=m)
+
+
 def check_escape(rep, ix):
     m = ix.module(BF)
     ea = exc.ExcAnalysis(ix)
+    if _frame_size_positive(rep, ix):
+        ea.proved_nonzero = frozenset({('TotalDepth.LIS.core.Type01Plan', 'self._frameSize')})
     reg = _registry(ix)
     seen = set()
     for fn, code in reg:
@@ -353,6 +513,7 @@ def run(rep, ix, tier):
     check_order(rep, ix)
     check_rewind(rep, ix)
     check_escape(rep, ix)
+    check_invariant(rep, ix)
     check_sul(rep, ix)
     check_binding(rep, ix)
     check_dat_table(rep, ix)
@@ -360,5 +521,7 @@ def run(rep, ix, tier):
     rep.floor('R-C20-ORDER', 18)
     rep.floor('R-C20-REWIND', 5)
     rep.floor('R-C20-ESCAPE', 24)
+    rep.floor('R-C20-FRAMESIZE', 5)
+    rep.floor('R-C20-INVARIANT', 4)
     rep.floor('R-C20-SUL', 8)
     rep.floor('R-C20-BIND', 6)
